@@ -21,6 +21,7 @@ Run: lake env lean --run FaxVerif/C11/Driver.lean
 -/
 import Lean.Data.Json
 import FaxVerif.C11.Spec
+import FaxVerif.C11.ExtModel
 import FaxVerif.C11.Angle
 open Lean FaxVerif.C11
 
@@ -54,6 +55,10 @@ def parseSpec (j : Json) : Except String FSpec := do
     match j.getObjVal? "methodObject" with
     | .ok (Json.str s) => some (S s)
     | _ => none
+  let io : Option Str :=
+    match j.getObjVal? "instanceObject" with
+    | .ok (Json.str s) => some (S s)
+    | _ => none
   pure {
     name := S (← (← j.getObjVal? "name").getStr?),
     includes := ← strList (← j.getObjVal? "includes"),
@@ -62,7 +67,8 @@ def parseSpec (j : Json) : Except String FSpec := do
     result := S (← (← j.getObjVal? "result").getStr?),
     retType := S (← (← j.getObjVal? "retType").getStr?),
     isCollection := ← (← j.getObjVal? "isCollection").getBool?,
-    methodObject := mo }
+    methodObject := mo,
+    instanceObject := io }
 
 def parseCV (j : Json) : Except String CodeValue := do
   let inst : Option (Str × Str) ←
@@ -309,6 +315,36 @@ def opQuery (j : Json) : Except String Json := do
   pure (Json.mkObj (out ++ [("sitesOk", Json.bool sitesOk), ("receiverPlain", Json.bool (ReceiverPlainList tbl cols)),
     ("wf", Json.bool wf), ("prefixOk", Json.bool prefixOk), ("styleStrict", Json.bool styleStrict), ("holds", Json.bool holds), ("why", Json.str why)]))
 
+def specJson (s : FSpec) : Json :=
+  Json.mkObj [("name", Json.str (U s.name)), ("includes", jstrs s.includes), ("args", jstrs s.args),
+    ("code", jstrs s.code), ("result", Json.str (U s.result)), ("retType", Json.str (U s.retType)),
+    ("isCollection", Json.bool s.isCollection),
+    ("methodObject", match s.methodObject with | some m => Json.str (U m) | none => Json.null)]
+
+def handlerJson : Handler → Json
+  | .spec s => Json.mkObj [("spec", specJson s)]
+  | .nonnull => Json.str "nonnull"
+  | .refuse => Json.str "refuse"
+
+/-- {"op":"register","builtins":TABLE,"specs":[FSPEC..] (in `cpp_functions` order),"obs":[[name, HANDLER|null]..]}
+    -> {"model":[[name, HANDLER|null]..],"holds":b,"wrong":[name..]}   (RegistrationSpec) -/
+def opRegister (j : Json) : Except String Json := do
+  let builtins ← parseTable (← j.getObjVal? "builtins")
+  let specs ← (← (← j.getObjVal? "specs").getArr?).toList.mapM parseSpec
+  let mds := specs.map Md.func
+  let obs ← (← (← j.getObjVal? "obs").getArr?).toList.mapM fun p => do
+    let q ← p.getArr?
+    let h : Option Handler ← match q[1]! with
+      | Json.null => pure none
+      | x => pure (some (← parseHandler x))
+    pure (S (← q[0]!.getStr?), h)
+  let tbl := registered builtins mds
+  let model := obs.map fun p => Json.arr #[Json.str (U p.1), match (tbl.get? p.1).map Handler.observable with
+    | some h => handlerJson h | none => Json.null]
+  let wrong := obs.filter fun p => !decide (RegistrationSpec builtins mds [p])
+  pure (Json.mkObj [("model", Json.arr model.toArray), ("holds", Json.bool (decide (RegistrationSpec builtins mds obs))),
+    ("wrong", jstrs (wrong.map (·.1)))])
+
 def floatJson (f : Float) : Json :=
   match JsonNumber.fromFloat? f with
   | .inr n => Json.num n
@@ -350,6 +386,7 @@ def handle (line : String) : String :=
       else if op == "build" then opBuild j
       else if op == "find" then opFind j
       else if op == "query" then opQuery j
+      else if op == "register" then opRegister j
       else if op == "deltar" then opDeltaR j
       else if op == "wrapgrid" then opWrapGrid j
       else throw s!"unknown op {op}"
